@@ -756,6 +756,40 @@ func (g *gen) pct() {
 	g.finale(r)
 }
 
+// starve: one dequeuer is overtaken again and again.  Thread 1 starts a Dequeue on a well-filled queue and is
+// let run `s` atomic steps at a time; between its slices thread 2 (and in some cases thread 3 too) completes a
+// whole Dequeue, so thread 1's view of the head is stale every time it gets to its CAS (for the slice length
+// that matches one iteration of its loop) or to its re-check (for the others).  The queue never becomes empty:
+// thread 1 must go on retrying and finally return a task -- "empty" is reported only if the queue was empty at
+// some instant during the call, however often the caller loses the race.
+func (g *gen) starve() {
+	s := g.rnd.Range(2, 6)
+	rounds := g.rnd.Range(10, 14)
+	three := g.rnd.Chance(30)
+	r := g.newCase("starve", "slice="+tr.I(s), "rounds="+tr.I(rounds))
+	g.prefill(r, 2*rounds+6)
+	r.exec(tr.L("start", "1", "deq"))
+	for k := 0; k < rounds && r.th[1].busy; k++ {
+		for i := 0; i < s && r.th[1].busy; i++ {
+			r.exec(tr.L("step", "1"))
+		}
+		if !r.th[1].busy {
+			break
+		}
+		r.exec(tr.L("start", "2", "deq"))
+		runToEnd(r, 2)
+		if three {
+			r.exec(tr.L("start", "3", "deq"))
+			runToEnd(r, 3)
+		}
+		if r.th[1].busy {
+			r.exec(tr.L("step", "1"))
+		}
+	}
+	runToEnd(r, 1)
+	g.finale(r)
+}
+
 // bounded: every schedule of the given scripts with at most `bound` preemptions.
 func (g *gen) bounded(sc [][]opSpec, pre, bound, limit int) int {
 	stack := [][]int{{}}
@@ -857,15 +891,18 @@ func main() {
 		return
 	}
 	g := &gen{w: w, rnd: tr.NewRand(*seed)}
-	nRnd, nPct, nStressLin, nStressBig := 240, 110, 30, 4
+	nRnd, nPct, nStarve, nStressLin, nStressBig := 240, 110, 24, 30, 4
 	if *tier == "thorough" {
-		nRnd, nPct, nStressLin, nStressBig = 12000, 8000, 600, 40
+		nRnd, nPct, nStarve, nStressLin, nStressBig = 12000, 8000, 600, 600, 40
 	}
 	for i := 0; i < nRnd; i++ {
 		g.random()
 	}
 	for i := 0; i < nPct; i++ {
 		g.pct()
+	}
+	for i := 0; i < nStarve; i++ {
+		g.starve()
 	}
 	combos := [][2]string{{"ed", "de"}}
 	bound, limit := 1, 40
